@@ -83,6 +83,7 @@ class B:
         self.value_info = []
         self.sym_names = set()
         self.no_value_info = set()
+        self.static_vi = set()        # values whose concrete shape does not depend on the graph inputs
         self.root = parent.root if parent else self
 
     # ---- names / values
@@ -754,6 +755,10 @@ def e_sequence(b):
         k = rng.randint(1, d)
         chunks = [k, d - k] if d - k else [k]
         args = [v, b.i64(chunks)]
+        if rng.random() < 0.5:
+            # the ONNX specification: keepdims is IGNORED when the split input is given
+            kw["keepdims"] = rng.randint(0, 1)
+            b.features.add("split-to-sequence-vector-keepdims%d" % kw["keepdims"])
     else:
         chunks = [1] * d
         args = [v]
@@ -1028,20 +1033,432 @@ def _ref_attr(name, ref, typ):
     return a
 
 
+# ------------------------------------------------------------------------------------------- targeted families (round 3)
+
+def _produced_names(b):
+    return {o for n in b.nodes for o in n.output}
+
+
+def _dyn_scalar(b, dt):
+    """A run-time scalar of dtype dt (shape () whatever the shapes of the graph inputs are), or None."""
+    rng = b.rng
+    v = b.pick(lambda w: not w.const and w.dtype == dt and w.size > 0 and w.exact and w.depth < 6)
+    if v is None:
+        return None
+    if v.rank == 0:
+        return v
+    (n,) = b.node("ReduceMax", [v], keepdims=0)
+    return b.out(n, dt, (), True, [v], const=False)
+
+
+def _static(b, v):
+    """v's shape does not depend on the graph inputs: annotate it with its concrete shape."""
+    b.root.static_vi.add(v.name)
+    return v
+
+
+def e_zero_dims(b):
+    """Zero-length dimensions in every operand position of the modelled evaluators (Concat along / across the empty axis,
+    Reshape / Expand to the own shape, Shape / Size / Gather, sequences, Cast, Dropout ...): the run-time SHAPE of an empty
+    tensor is what the folder must preserve."""
+    rng = b.rng
+    dt = rng.choice([F32, F32, I64])
+    rank = rng.randint(1, 3)
+    zax = rng.randrange(rank)
+    base = [rng.randint(1, 3) for _ in range(rank)]
+    base[zax] = 0
+    scal = _dyn_scalar(b, dt) if rng.random() < 0.7 else None
+
+    def operand(shape):
+        c = b.const(np.zeros(shape, dtype=dt) if 0 in shape else nice(rng, dt, shape))
+        if scal is not None and rng.random() < 0.6:
+            (n,) = b.node(rng.choice(["Mul", "Add"]), [c, scal] if rng.random() < 0.5 else [scal, c])
+            return _static(b, b.out(n, dt, tuple(shape), True, [c, scal], const=False))
+        return c
+
+    b.features.add("zero-dim-operands")
+    kind = rng.choice(["concat", "concat", "concat", "reshape-own", "expand-own", "shape", "size", "seq-concat", "seq-at",
+                       "split-seq", "cast", "dropout", "squeeze", "add-bcast"])
+    b.features.add("zero-dim:" + kind)
+    x = operand(base)
+    if kind == "concat":
+        ax = rng.randrange(rank)
+        parts, total = [], 0
+        for _ in range(rng.randint(2, 3)):
+            shp = list(base)
+            shp[ax] = rng.choice([0, 1, 2, 3]) if ax != zax else rng.choice([0, 0, 1, 2])
+            parts.append(operand(shp))
+            total += shp[ax]
+        if ax != zax:
+            b.features.add("concat-zero-in-other-axis")
+        (n,) = b.node("Concat", parts, axis=ax if rng.random() < 0.5 else ax - rank)
+        res = list(base)
+        res[ax] = total
+        r = b.out(n, dt, tuple(res), True, parts)
+        if any(not p.const for p in parts):
+            r.const = False
+            _static(b, r)
+        if rng.random() < 0.6:
+            (s,) = b.node("Shape", [r])
+            return b.out(s, I64, (rank,), True, [], const=False)
+        return r
+    if kind in ("reshape-own", "expand-own"):
+        how = rng.choice(["shape-of", "const"])
+        if how == "shape-of":
+            (s,) = b.node("Shape", [x])
+            sv = b.out(s, I64, (rank,), True, [], const=False)
+        else:
+            sv = b.i64(list(base))
+        (n,) = b.node("Reshape" if kind == "reshape-own" else "Expand", [x, sv])
+        r = b.out(n, dt, tuple(base), True, [x], const=x.const and sv.const)
+        return r if r.const else _static(b, r)
+    if kind == "shape":
+        kw = {}
+        if rng.random() < 0.6:
+            kw["start"] = rng.randint(-rank, rank)
+        if rng.random() < 0.4:
+            kw["end"] = rng.randint(-rank, rank)
+        (n,) = b.node("Shape", [x], **kw)
+        dims = base[slice(kw.get("start", 0), kw.get("end", None))]
+        sv = b.out(n, I64, (len(dims),), True, [], const=False)
+        if dims and rng.random() < 0.5:
+            (g,) = b.node("Gather", [sv, b.i64([rng.randrange(len(dims))])], axis=0)
+            return b.out(g, I64, (1,), True, [], const=False)
+        return sv
+    if kind == "size":
+        (n,) = b.node("Size", [x])
+        return b.out(n, I64, (), True, [], const=False)
+    if kind in ("seq-concat", "seq-at"):
+        elems = [x, operand(base)] + ([x] if rng.random() < 0.3 else [])
+        (s,) = b.node("SequenceConstruct", elems)
+        sv = b.add(Val(s, dt, (), True, False, seq=[tuple(base)] * len(elems)))
+        if kind == "seq-at":
+            (n,) = b.node("SequenceAt", [sv, b.i64(rng.randint(-len(elems), len(elems) - 1))])
+            return b.out(n, dt, tuple(base), True, elems, const=False)
+        new_axis = rng.randint(0, 1)
+        ax = rng.randrange(rank + new_axis)
+        (n,) = b.node("ConcatFromSequence", [sv], axis=ax, new_axis=new_axis)
+        shp = base[:ax] + [len(elems)] + base[ax:] if new_axis else base[:ax] + [base[ax] * len(elems)] + base[ax + 1:]
+        r = b.out(n, dt, tuple(shp), True, elems, const=False)
+        (s2,) = b.node("Shape", [r])
+        return b.out(s2, I64, (len(shp),), True, [], const=False)
+    if kind == "split-seq":
+        others = [i for i in range(rank) if i != zax and base[i] >= 1]
+        ax = rng.choice(others) if others and rng.random() < 0.7 else zax
+        d = base[ax]
+        if d == 0:
+            chunks = [0, 0]
+        else:
+            k = rng.randint(1, d)
+            chunks = [k, d - k] if d - k else [k]
+        (s,) = b.node("SplitToSequence", [x, b.i64(chunks)], axis=ax)
+        shapes = [tuple(base[:ax] + [c] + base[ax + 1:]) for c in chunks]
+        sv = b.add(Val(s, dt, (), True, False, seq=shapes))
+        i = rng.randint(-len(chunks), len(chunks) - 1)
+        (n,) = b.node("SequenceAt", [sv, b.i64(i)])
+        r = b.out(n, dt, shapes[i], True, [x], const=False)
+        (s2,) = b.node("Shape", [r])
+        return b.out(s2, I64, (rank,), True, [], const=False)
+    if kind == "cast":
+        t = rng.choice([dt, F64, I32])
+        if rng.random() < 0.5:
+            like = b.const(nice(rng, t, ()))
+            (n,) = b.node("CastLike", [x, like])
+        else:
+            (n,) = b.node("Cast", [x], to=NP2ONNX[t])
+        r = b.out(n, t, tuple(base), True, [x], const=x.const)
+        return r if r.const else _static(b, r)
+    if kind == "dropout":
+        if dt != F32:
+            return x
+        outs = b.node("Dropout", [x], 2)
+        r = b.out(outs[0], dt, tuple(base), True, [x], const=False)
+        b.out(outs[1], BOOL, tuple(base), True, [x], const=False)
+        return r
+    if kind == "squeeze":
+        ax = rng.randint(0, rank)
+        (u,) = b.node("Unsqueeze", [x, b.i64([ax])])
+        uv = b.out(u, dt, tuple(base[:ax] + [1] + base[ax:]), True, [x], const=x.const)
+        (n,) = b.node("Squeeze", [uv, b.i64([ax])])
+        r = b.out(n, dt, tuple(base), True, [x], const=x.const)
+        return r if r.const else _static(b, r)
+    other = list(base)
+    free = [i for i in range(rank) if i != zax]
+    if free and rng.random() < 0.6:
+        other[rng.choice(free)] = 1
+    y = operand(other if rng.random() < 0.7 else other[1:] if rank > 1 and zax != 0 else other)
+    try:
+        shp = bshape(tuple(base), y.shape)
+    except ValueError:
+        return x
+    (n,) = b.node(rng.choice(["Add", "Mul", "Max"]), [x, y])
+    r = b.out(n, dt, shp, True, [x, y])
+    return r if r.const else _static(b, r)
+
+
+def _dyn_cond(b):
+    """A boolean scalar computed at run time (never a compile-time constant), or None."""
+    cv = b.pick(lambda v: v.dtype == BOOL and v.size >= 1 and not v.const)
+    if cv is None:
+        src = b.pick(lambda v: v.exact and v.dtype in (F32, I64) and v.size >= 1 and not v.const)
+        if src is None:
+            return None
+        zero = b.const(np.array(0, dtype=src.dtype))
+        (g,) = b.node("Greater", [src, zero])
+        cv = b.out(g, BOOL, src.shape, True, [src])
+    if cv.rank == 0:
+        return cv
+    (f,) = b.node("Reshape", [cv, b.i64([-1])])
+    fv = b.out(f, BOOL, (cv.size,), True, [cv])
+    (g,) = b.node("Gather", [fv, b.i64(0)], axis=0)
+    return b.out(g, BOOL, (), True, [cv])
+
+
+def _alias_of(sb, v, how=None):
+    """A node whose output the folder knows to be the value v itself (Identity, same-type Cast, single-operand Concat,
+    Dropout in inference mode, Reshape to a constant own shape)."""
+    rng = sb.rng
+    opts = ["Identity", "Identity", "Cast"]
+    if v.rank >= 1:
+        opts += ["Concat1", "Reshape"]
+    if v.dtype == F32:
+        opts.append("Dropout")
+    how = how or rng.choice(opts)
+    if how == "Cast":
+        (n,) = sb.node("Cast", [v], to=NP2ONNX[v.dtype])
+    elif how == "Concat1":
+        (n,) = sb.node("Concat", [v], axis=0)
+    elif how == "Reshape":
+        (n,) = sb.node("Reshape", [v, sb.i64(list(v.shape), "node")])
+    elif how == "Dropout":
+        (n,) = sb.node("Dropout", [v])
+    else:
+        (n,) = sb.node("Identity", [v])
+    sb.features.add("alias-by-" + how.lower())
+    return sb.out(n, v.dtype, v.shape, v.exact, [v], const=False)
+
+
+def e_if_forward(b):
+    """If on a run-time condition whose branches hand outer node outputs through (Identity and the other alias-producing
+    evaluators), or return one inner value twice (two outputs aliasing one value)."""
+    rng = b.rng
+    if b.is_function:
+        return None
+    produced = _produced_names(b)
+    p = b
+    while p.parent is not None:
+        p = p.parent
+        produced |= _produced_names(p)
+    t = b.pick(lambda v: not v.const and v.name in produced and v.dtype in (F32, I64) and v.seq is None)
+    if t is None:
+        return None
+    cond = _dyn_cond(b)
+    if cond is None:
+        return None
+    variant = rng.choice(["forward-both", "forward-one", "forward-one", "two-outputs-alias", "forward-and-alias"])
+    nout = 1 if variant in ("forward-both", "forward-one") else 2
+    branches = []
+    exact = t.exact
+    for tag in ("then", "else"):
+        sb = _sub_body(b, tag, 1)
+        outs = []
+        if variant == "forward-both" or (variant == "forward-one" and (tag == "then") == (rng.random() < 0.5)) or variant == "forward-and-alias":
+            outs.append(_alias_of(sb, t))                       # the branch output IS an outer node output
+        else:
+            (n,) = sb.node(rng.choice(["Neg", "Abs"]), [t])
+            outs.append(sb.out(n, t.dtype, t.shape, t.exact, [t], const=False))
+        if nout == 2:
+            if variant == "two-outputs-alias":
+                (m_,) = sb.node("Neg", [t])
+                mid = sb.out(m_, t.dtype, t.shape, t.exact, [t], const=False)
+                outs = [_alias_of(sb, mid), _alias_of(sb, mid)]    # both outputs alias one inner value
+            else:
+                (m_,) = sb.node("Abs", [t])
+                mid = sb.out(m_, t.dtype, t.shape, t.exact, [t], const=False)
+                outs.append(_alias_of(sb, mid))
+        g = helper.make_graph(sb.nodes, f"{tag}_{b.fresh('g')}", [], [_vi(o.name, o.dtype, o.shape, sym=False) for o in outs], initializer=sb.inits)
+        branches.append(g)
+    names = b.node("If", [cond], nout, then_branch=branches[0], else_branch=branches[1])
+    b.features.add("if")
+    b.features.add("if-dynamic-cond")
+    b.features.add("subgraph-forwards-outer:" + variant)
+    res = [b.out(n, t.dtype, t.shape, exact, [t], const=False) for n in names]
+    return res[0]
+
+
+def e_loop_scan(b):
+    """Loop with scan outputs: two scan outputs aliasing one inner value, a scan output that hands an outer node output
+    through an Identity."""
+    rng = b.rng
+    if b.is_function or b.parent is not None:
+        return None
+    init = b.pick(lambda v: v.dtype in (F32, I64) and v.seq is None and v.depth < 5 and v.size > 0)
+    if init is None:
+        return None
+    produced = _produced_names(b)
+    t = b.pick(lambda v: not v.const and v.name in produced and v.dtype in (F32, I64) and v.seq is None and v.size > 0)
+    trips = rng.choice([1, 2, 3, 0])
+    m = b.const(np.array(trips, dtype=np.int64), rng.choice(["init", "node"]))
+    cond = b.const(np.array(True), rng.choice(["init", "node"]))
+    sb = _sub_body(b, "loop", 1)
+    it, cin, carried = sb.fresh("iter"), sb.fresh("cin"), sb.fresh("acc")
+    acc = sb.add(Val(carried, init.dtype, init.shape, init.exact, False))
+    k = sb.const(nice(rng, init.dtype, ()), rng.choice(["init", "node"]))
+    (n,) = sb.node(rng.choice(["Add", "Max", "Sub"]), [acc, k])
+    acc_out = sb.out(n, init.dtype, init.shape, init.exact, [acc], const=False)
+    (m_,) = sb.node("Neg", [acc])
+    mid = sb.out(m_, init.dtype, init.shape, init.exact, [acc], const=False)
+    scans = []
+    variant = rng.choice(["alias-pair", "forward-outer", "both"]) if t is not None else "alias-pair"
+    if variant in ("alias-pair", "both"):
+        scans += [_alias_of(sb, mid), _alias_of(sb, mid)]
+    if variant in ("forward-outer", "both"):
+        scans.append(_alias_of(sb, t))
+    (co,) = sb.node("Identity", [cin])
+    body = helper.make_graph(sb.nodes, b.fresh("body"),
+                             [helper.make_tensor_value_info(it, TensorProto.INT64, []), helper.make_tensor_value_info(cin, TensorProto.BOOL, []),
+                              _vi(carried, init.dtype, init.shape, sym=False)],
+                             [helper.make_tensor_value_info(co, TensorProto.BOOL, []), _vi(acc_out.name, init.dtype, init.shape, sym=False)]
+                             + [_vi(s.name, s.dtype, s.shape, sym=False) for s in scans],
+                             initializer=sb.inits)
+    names = b.node("Loop", [m, cond, init], 1 + len(scans), body=body)
+    b.features.add("loop")
+    b.features.add("loop-scan-outputs:" + variant)
+    ex = init.exact and (trips < 3 or init.dtype == I64)
+    r = b.out(names[0], init.dtype, init.shape, ex, [init], const=False)
+    for nm, s in zip(names[1:], scans):
+        b.root.no_value_info.add(nm)
+        b.out(nm, s.dtype, (trips,) + tuple(s.shape), ex and s.exact, [init], const=False)
+    return r
+
+
+def e_optional_omitted(b):
+    """All-constant nodes on the generic folding path that omit an optional input (empty name in the middle or at the end of
+    the input list); the results are larger than the small output size limits of the option tuples."""
+    rng = b.rng
+    dt = rng.choice([F32, I64, F32])
+    shp = rng.choice([(2, 3), (8,), (3, 3), (5,), (2, 2, 2)])
+    c = b.const(nice(rng, dt, shp), rng.choice(["init", "node"]))
+    kind = rng.choice(["clip-max-only", "clip-trailing-empty", "pad-no-value", "slice-no-axes", "clip-max-only"])
+    b.features.add("optional-input-omitted:" + kind)
+    if kind == "clip-max-only":
+        hi = b.const(np.array(rng.choice([0, 1, 3]), dtype=dt), rng.choice(["init", "node"]))
+        (n,) = b.node("Clip", [c, None, hi])
+        return b.out(n, dt, shp, True, [c, hi])
+    if kind == "clip-trailing-empty":
+        lo = b.const(np.array(rng.choice([-1, 0, 2]), dtype=dt), rng.choice(["init", "node"]))
+        (n,) = b.node("Clip", [c, lo, None])
+        return b.out(n, dt, shp, True, [c, lo])
+    if kind == "pad-no-value":
+        ax = rng.randrange(len(shp))
+        lo_, hi_ = rng.randint(0, 2), rng.randint(1, 2)
+        (n,) = b.node("Pad", [c, b.i64([lo_, hi_]), None, b.i64([ax])])
+        res = list(shp)
+        res[ax] += lo_ + hi_
+        return b.out(n, dt, tuple(res), True, [c])
+    d = shp[0]
+    st, en, sp = rng.randint(0, d - 1), d, rng.choice([1, 2])
+    (n,) = b.node("Slice", [c, b.i64([st]), b.i64([en]), None, b.i64([sp])])
+    return b.out(n, dt, (len(range(d)[st:en:sp]),) + tuple(shp[1:]), True, [c])
+
+
+def e_function_ref(b):
+    """Model-local functions in which a node the folder evaluates (partial evaluator, reference evaluator or node-level shape
+    inference) takes an attribute BY REFERENCE to a function attribute: its value is only known at the call site."""
+    rng = b.rng
+    if b.parent is not None or b.is_function:
+        return None
+    v = b.pick(lambda v: v.dtype == F32 and v.seq is None)
+    if v is None:
+        return None
+    kind = rng.choice(["shape-start", "shape-end", "leaky-alpha", "transpose-perm", "split-axis"])
+    fname = f"fn_ref_{kind.replace('-', '_')}_{len(b.functions)}"
+    dom = "local.verif"
+    pre = f"{fname}_"
+    fx = pre + "fx"
+    AP = onnx.AttributeProto
+    vis = []
+    kshape = rng.choice([(2, 3, 4), (3, 2), (2, 1, 3)])
+    karr = nice(rng, F32, kshape)
+    knode = helper.make_node("Constant", [], [pre + "k"], value=numpy_helper.from_array(karr, pre + "k"))
+    if kind in ("shape-start", "shape-end"):
+        rank = len(kshape)
+        a = rng.randint(-rank, rank)
+        if rng.random() < 0.5:
+            # a run-time value whose shape the function body declares
+            nodes = [knode, helper.make_node("Mul", [fx, pre + "k"], [pre + "t"])]
+            tshape = bshape(v.shape, kshape) if _bcast_ok(v.shape, kshape) else None
+            if tshape is None:
+                return None
+            vis.append(helper.make_tensor_value_info(pre + "t", TensorProto.FLOAT, list(tshape)))
+            src = pre + "t"
+        else:
+            nodes, tshape, src = [knode], kshape, pre + "k"
+        sh = helper.make_node("Shape", [src], [pre + "y"])
+        sh.attribute.append(_ref_attr("start" if kind == "shape-start" else "end", "a", AP.INT))
+        nodes.append(sh)
+        dims = list(tshape)[a:] if kind == "shape-start" else list(tshape)[:a]
+        attrs, call_attrs = ["a"], {"a": a}
+        res = (I64, (len(dims),), True)
+    elif kind == "leaky-alpha":
+        al = rng.choice([0.5, 0.25, 2.0])
+        lk = helper.make_node("LeakyRelu", [pre + "k"], [pre + "t"])
+        lk.attribute.append(_ref_attr("alpha", "alpha", AP.FLOAT))
+        if _bcast_ok(v.shape, kshape):
+            nodes = [knode, lk, helper.make_node("Add", [fx, pre + "t"], [pre + "y"])]
+            res = (F32, bshape(v.shape, kshape), v.exact)
+        else:
+            nodes = [knode, lk, helper.make_node("Identity", [pre + "t"], [pre + "y"])]
+            res = (F32, kshape, True)
+        attrs, call_attrs = ["alpha"], {"alpha": al}
+    elif kind == "transpose-perm":
+        perm = list(range(len(kshape)))
+        rng.shuffle(perm)
+        tr = helper.make_node("Transpose", [pre + "k"], [pre + "y"])
+        tr.attribute.append(_ref_attr("perm", "p", AP.INTS))
+        nodes = [knode, tr]
+        attrs, call_attrs = ["p"], {"p": perm}
+        res = (F32, tuple(kshape[i] for i in perm), True)
+    else:
+        rank = len(kshape)
+        ax = rng.randrange(rank)
+        d = kshape[ax]
+        chunks = [1, d - 1] if d > 1 else [1]
+        sp = helper.make_node("SplitToSequence", [pre + "k", pre + "sp"], [pre + "s"])
+        sp.attribute.append(_ref_attr("axis", "a", AP.INT))
+        nodes = [knode, helper.make_node("Constant", [], [pre + "sp"], value_ints=chunks), sp,
+                 helper.make_node("Constant", [], [pre + "i"], value_int=0),
+                 helper.make_node("SequenceAt", [pre + "s", pre + "i"], [pre + "e"]),
+                 helper.make_node("Shape", [pre + "e"], [pre + "y"])]
+        attrs, call_attrs = ["a"], {"a": ax if rng.random() < 0.6 else ax - rank}
+        res = (I64, (rank,), True)
+    f = helper.make_function(dom, fname, [fx], [pre + "y"], nodes, [helper.make_opsetid("", b.opset), helper.make_opsetid(dom, 1)], attributes=attrs)
+    for vi_ in vis:
+        f.value_info.append(vi_)
+    b.functions.append(f)
+    (n,) = b.node(fname, [v], domain=dom, **call_attrs)
+    b.features.add("function-ref-attr:" + kind)
+    r = b.out(n, res[0], res[1], res[2], [v], const=False)
+    if not (kind == "leaky-alpha" and res[1] != kshape):
+        _static(b, r)          # the shape of the result does not depend on the graph inputs
+    return r
+
+
 EMITTERS = [
     (e_unary, 10), (e_unary_int, 3), (e_binary, 14), (e_compare, 5), (e_logic, 3), (e_where, 4), (e_cast, 8),
     (e_shape_chain, 9), (e_reshape_like, 10), (e_concat, 5), (e_slice_gather, 7), (e_expand_tile, 5), (e_reduce, 5),
     (e_matmul, 5), (e_clip_motif, 5), (e_noop_motif, 5), (e_dropout, 5), (e_sequence, 6), (e_const_expr, 8),
     (e_string, 1), (e_if, 6), (e_loop, 4), (e_function_call, 3),
+    (e_zero_dims, 4), (e_if_forward, 3), (e_loop_scan, 2), (e_optional_omitted, 3), (e_function_ref, 2),
 ]
 
 PROFILES = {
     # name -> multiplicative weight overrides
     "mixed": {},
-    "fold": {e_const_expr: 4, e_cast: 2, e_shape_chain: 2, e_if: 2, e_loop: 2},
-    "control": {e_if: 5, e_loop: 4, e_function_call: 3, e_const_expr: 2},
+    "fold": {e_const_expr: 4, e_cast: 2, e_shape_chain: 2, e_if: 2, e_loop: 2, e_optional_omitted: 3, e_zero_dims: 2},
+    "control": {e_if: 5, e_loop: 4, e_function_call: 3, e_const_expr: 2, e_if_forward: 4, e_loop_scan: 4, e_function_ref: 3},
     "rules": {e_clip_motif: 4, e_noop_motif: 4, e_reshape_like: 3, e_cast: 3, e_matmul: 3, e_expand_tile: 2, e_slice_gather: 2},
-    "seq": {e_sequence: 6, e_dropout: 4, e_concat: 3, e_shape_chain: 2},
+    "seq": {e_sequence: 6, e_dropout: 4, e_concat: 3, e_shape_chain: 2, e_zero_dims: 4},
 }
 
 
@@ -1132,6 +1549,15 @@ def gen_dag(rng, idx, profile="mixed", n_nodes=None, overridable=False, value_in
         (n,) = b.node("Identity", [src])
         outs.append(b.out(n, src.dtype, src.shape, src.exact, [src]))
         b.features.add("identity-output")
+    if rng.random() < 0.2:
+        # several graph outputs that are aliases (Identity, same-type Cast, ...) of ONE intermediate value
+        cands = [v for v in b.vals if v.seq is None and v.name in produced and v not in outs and not v.const and v.dtype != STR]
+        if cands:
+            t = rng.choice(cands)
+            for _ in range(rng.randint(2, 3)):
+                outs.append(_alias_of(b, t))
+            b.features.add("outputs-alias-one-value")
+            produced = {o for n in b.nodes for o in n.output}
     # value_info: all, some or none of the intermediate values
     vis = []
     if value_info != "none":
@@ -1140,8 +1566,14 @@ def gen_dag(rng, idx, profile="mixed", n_nodes=None, overridable=False, value_in
         any_sym = any(sym_inputs.values())
         for v in b.vals:
             if v.seq is None and v.name in produced and v.name not in b.no_value_info and (value_info == "all" or rng.random() < 0.5):
-                vis.append(_vi(v.name, v.dtype, v.shape, sym=any_sym and v.dtype != STR))
+                vis.append(_vi(v.name, v.dtype, v.shape, sym=any_sym and v.dtype != STR and v.name not in b.static_vi))
     have = {v.name for v in vis}
+    for v in b.vals:
+        # shapes that do not depend on the graph inputs (zero-size operands built from constants ...): declared concretely
+        if v.name in b.static_vi and v.name in produced and v.name not in have and v.seq is None and v.dtype != STR \
+                and (value_info != "none" or rng.random() < 0.5):
+            vis.append(_vi(v.name, v.dtype, v.shape, sym=False))
+            have.add(v.name)
     vis += [v for v in b.value_info if v.name not in have and v.name not in {o.name for o in outs}]
     out_sym = "unnamed" if "unnamed-dynamic-dims" in b.features and rng.random() < 0.7 else True
     g = helper.make_graph(b.nodes, f"g{idx}", b.inputs, [_vi(o.name, o.dtype, o.shape, sym=out_sym) for o in outs], initializer=b.inits, value_info=vis)
